@@ -95,7 +95,7 @@ class _Finder(object):
         w = self.world
         if short is None or not w.installed:
             return None
-        ok = w.plan.decide(short)
+        ok = w.plan.decide(short) and short in w.compiled
         if w.events is not None:
             w.events.append(('import', short, 'import machinery', 1 if ok else 0))
         if not ok:
@@ -163,16 +163,20 @@ class World(object):
     def _lower_all(self):
         cydir = os.path.join(self.repo, 'pyspike', 'cython')
         _rt.CIMPORT.clear()
+        self.lower_errors = []      # a kernel that cannot be lowered is "not built" for every plan, and
+                                    # the check ends in exit 2 unless it found a violation anyway
         for short in CY:
             path = os.path.join(cydir, short + '.pyx')
             if not os.path.exists(path):
-                raise HarnessError("HARNESS-ERROR cannot lower %s: file missing" % path)
+                self.lower_errors.append("HARNESS-ERROR cannot lower %s: file missing" % path)
+                continue
             with open(path) as f:
                 src = f.read()
             try:
                 code, pysrc, funcs = lower(src, path)
             except LoweringError as e:
-                raise HarnessError("HARNESS-ERROR %s" % e)
+                self.lower_errors.append("HARNESS-ERROR %s" % e)
+                continue
             mod = types.ModuleType('pyspike.cython.' + short)
             mod.__file__ = path
             mod.__dict__['_rt'] = _rt
@@ -180,7 +184,8 @@ class World(object):
                 with self._plain_import():
                     exec(code, mod.__dict__)
             except Exception as e:  # pragma: no cover
-                raise HarnessError("HARNESS-ERROR cannot load lowered %s: %r" % (path, e))
+                self.lower_errors.append("HARNESS-ERROR cannot load lowered %s: %r" % (path, e))
+                continue
             self.compiled[short] = mod
             self.lowered_src[short] = pysrc
             self.lowered_funcs[short] = funcs
@@ -340,7 +345,7 @@ class World(object):
         return self._real_import(name, globals, locals, fromlist, level)
 
     def _decide_module(self, short, absname, site, as_name=False):
-        ok = self.plan.decide(short)
+        ok = self.plan.decide(short) and short in self.compiled
         if self.events is not None:
             self.events.append(('import', short, site, 1 if ok else 0))
         if not ok:
